@@ -410,6 +410,11 @@ var c15Exts = []string{".fga", ".fga", ".fga", ".fga", "%2Efga", ".FGA", ".fg", 
 func c15GenPath(t *rapid.T) string {
 	n := rapid.IntRange(0, 4).Draw(t, "nparts")
 	s := rapid.SampledFrom([]string{"", "", "", "/", "\\", "%2f", "%5C", "./", "../", "..\\"}).Draw(t, "lead")
+	if rapid.IntRange(0, 5).Draw(t, "blankLead") == 0 {
+		// blanks and control characters (escaped) in front of everything: whatever is cut off later must not turn a
+		// checked value into an unchecked one
+		s = rapid.SampledFrom([]string{"%0A", "%0d%0a", "%09", "%20", "+", "%00", "%0B", "%0C", "%C2%A0", " "}).Draw(t, "blank") + s
+	}
 	for i := 0; i < n; i++ {
 		s += rapid.SampledFrom(c15PathParts).Draw(t, "part")
 		if i < n-1 {
